@@ -1127,6 +1127,15 @@ def gen_C13(r, tier):
         cases.append("py:obatch 2 1 %s" % hxlist(recs))
         cases.append("py:obatch 2 0 %s" % hxlist(recs[:700]))
     cases.append("py:cbatch 16 %s" % hxlist([bytes(r.choices(NUC10, k=1 + r.below(12))) for _ in range(3000 if tier == "quick" else 9000)]))
+    # long strings: iterators consumed far beyond any internal buffer (numbers of k-mers around multiples of 1024),
+    # and one vector of a string longer than 2^20 bases
+    for k in (1, 11, 31):
+        for nk in (1023, 1024, 1025, 2048, 2049, 4097 if tier == "quick" else 20000):
+            cases.append("py:kg %d %s" % (k, hx(bytes(r.choices(NUC, k=nk + k - 1)))))
+    for w, m in ((8, 5), (31, 31), (20, 1)):
+        cases.append("py:mg %d %d %s" % (w, m, hx(long_record(r, 6000, amb=3))))
+    for k, norm in ((1, 0), (2, 1)) if tier == "quick" else ((1, 0), (2, 1), (4, 0)):     # small k: the table spec costs columns x windows
+        cases.append("py:oligo %d %d %s" % (k, norm, hx(bytes(r.choices(NUC, k=(1 << 20) + 5000 + r.below(100))))))
     for k in (6, 4, 5, 3, 2, 1, 3):          # computers built one after another in one interpreter, k going down
         cases.append("py:header %d" % k); cases.append("py:oligo %d 0 %s" % (k, hx(b"ACGTTGCAAGGCTTAACC")))
     return cases
@@ -1183,7 +1192,7 @@ PROPS = {
                 assumptions=["bytes 0x00-0x03 are never generated"]),
     "C13": dict(gen=gen_C13, needs=["harness", "py"], executor=py_executor, to_spec=to_spec_py,
                 sample_filter=lambda c: len(c) < 500, sample_limit={"quick": 40, "thorough": 120},
-                rule="the extension module built from the working tree (cargo build -p pip, imported as pykmertools by the sandbox's python3) on seeded Python strings: nucleotide text in mixed case, ambiguity letters, arbitrary unicode incl. code points whose low byte is a nucleotide letter (U+0141, U+10041, ...), astral characters; KmerGenerator / MinimiserGenerator consumed after the source string was deleted and the heap churned; OligoComputer.vectorise_one / get_header / vectorise_batch (batch sizes 0..40, one of 1500; thorough: thousands), CgrComputer.vectorise_one / vectorise_batch incl. ValueError on bad nucleotides; results compared (vectors as binary64 bit patterns) with the models of the core on the UTF-8 bytes; non-trivial = non-empty result",
+                rule="the extension module built from the working tree (cargo build -p pip, imported as pykmertools by the sandbox's python3) on seeded Python strings: nucleotide text in mixed case, ambiguity letters, arbitrary unicode incl. code points whose low byte is a nucleotide letter (U+0141, U+10041, ...), astral characters; KmerGenerator / MinimiserGenerator consumed after the source string was deleted and the heap churned; OligoComputer.vectorise_one / get_header / vectorise_batch (batch sizes 0..40, one of 1500; thorough: thousands), CgrComputer.vectorise_one / vectorise_batch incl. ValueError on bad nucleotides; iterators over strings with 1023..4097 (thorough: 20000) k-mers and thousands of runs, one vector of a string longer than 2^20 bases; results compared (vectors as binary64 bit patterns) with the models of the core on the UTF-8 bytes; non-trivial = non-empty result",
                 assumptions=["pyo3's str -> String conversion hands the Rust code the UTF-8 encoding of the Python string",
                              "memory safety of the lifetime-extended slice and 'never crashes the interpreter' are exercised (interpreter death = CRASH) but cannot be exhibited by a Gallina model: partial",
                              "code points U+0000..U+0003 are never generated (bytes 0..3 are unspecified)"]),
